@@ -94,6 +94,8 @@ BUDGET = {1: 90, 2: 120, 4: 150, 16: 330}
 
 
 def gen_case(r, dist, malformed=False, nslots=None):
+    if not dist and not malformed and nslots is None and r.random() < 0.25:
+        return gen_handover_case(r)       # weight on upgrade / downgrade hand-overs with a backing-out reader and a prober
     if nslots is None:
         nslots = r.choice([1, 2, 2, 4, 4, 16]) if dist else 1
     nt = r.choice([2, 2, 3, 3, 4])
@@ -156,6 +158,228 @@ def term_of(c, p):
         dv.coq_list([str(t * 32 + site) for t, site in p['steps']]), res, dv.coq_list([dv.zlit(w) for w in words]), p['status'], dv.zlit(conflicts))
 
 
+def parse_out(o):
+    """tolerant parse of a harness line: a site the model does not know (renamed / new hook) gets its own index, so the
+    implementation-only property can still be evaluated (the lockstep comparison then simply disagrees)"""
+    p = ls_common.parse_vsched(o, SITES, TAGS)
+    if isinstance(p, dict) and 'error' in p and o.startswith('steps'):
+        names = []
+        for tok in o.split('|')[0].split()[1:]:
+            site = tok.split(':', 1)[1]
+            if site not in SITES and site not in names:
+                names.append(site)
+        p = ls_common.parse_vsched(o, SITES + names[:10], TAGS)
+        if isinstance(p, dict) and 'error' not in p:
+            p['unknown_sites'] = names
+    if p is None or 'error' in p or parse_extra(p['extra']) is None:
+        return None
+    return p
+
+
+def occupancy_conflicts(steps):
+    """python twin of C22Check.conflicts_of: occupancy replayed from the trace alone"""
+    nw = nr = c = 0
+    ew, er, xw, xr = (SITES.index(x) for x in ('cs.enterW', 'cs.enterR', 'cs.exitW', 'cs.exitR'))
+    for _, site in steps:
+        if site == ew:
+            nw += 1
+            if nw != 1 or nr != 0: c += 1
+        elif site == er:
+            nr += 1
+            if nw != 0: c += 1
+        elif site == xw: nw -= 1
+        elif site == xr: nr -= 1
+    return c
+
+
+def impl_fails(c, p):
+    """the executable property on the implementation's output alone (python twin of C22Check.property_fails; every hit is
+    confirmed by the Coq judge before it is reported)"""
+    words, conflicts, _ = parse_extra(p['extra'])
+    n = c['n']
+    wf = all(wf_py(pr, n, strict=False) for pr in c['progs'])
+    bal = wf and all(wf_py(pr, n, strict=True) for pr in c['progs'])
+    if wf and (conflicts > 0 or occupancy_conflicts(p['steps']) > 0):
+        return 'conflicting occupancy observed inside a critical section (a try_* / lock was granted while a conflicting holder was inside)'
+    if bal and p['status'] == 1:
+        return 'deadlock of a balanced script (lost wake-up)'
+    if bal and p['status'] == 0 and any(w != 0 for w in words):
+        return 'lock word not 0 at quiescence of a balanced script (the word is not what the holders account for)'
+    return None
+
+
+# ---- deterministic probe families (hand-over windows) -------------------------------------------------------------
+def probe_family(dist, full):
+    """thread 0 = holder that hands the lock over (downgrade / upgrade / unlock), thread 1 = reader whose fetch_add lands
+    while the writer bit is set and whose back-out lands after the hand-over, thread 2 = prober (decision 5 picks tid 2 both
+    with candidates [0,1,2] and [0,2]).  The step counts of every phase are swept, so a changed number of accesses in the
+    hand-over still lines the window up."""
+    cases = []
+    if not dist:
+        holders = [[('L',), ('D',), ('V', 0)], [('T', 2), ('D',), ('V', 0)], [('L',), ('D',), ('G',), ('U',)]]
+        readers = [[('Y', 0, 1), ('V', 0)], [('S', 0), ('V', 0)]]
+        probes = [[('T', 1), ('U',)], [('L',), ('U',)], [('Y', 0, 1), ('V', 0)]]
+        if not full:
+            holders, probes = holders[:1], probes[:2]
+        for h in holders:
+            for rd in readers:
+                for pb in probes:
+                    for a in ((3, 4) if full else (4,)):
+                        for cc in ((2, 3, 4, 5) if full else (3, 4)):
+                            for d in (1, 2):
+                                sched = [0] * a + [1] * 2 + [0] * cc + [1] * d + [5] * 22 + [0, 1, 5] * 30
+                                cases.append({'dist': False, 'n': 1, 'budget': 90, 'progs': [h, rd, pb], 'sched': sched[:102]})
+        # upgrade hand-over: the reader's fetch_add lands after the upgrader set the bit, its back-out wakes the upgrader
+        for rd in readers:
+            for pb in ([('Y', 0, 1), ('V', 0)], [('T', 1), ('U',)]):
+                for cc in ((1, 2, 3) if full else (2,)):
+                    for d in ((1, 2, 3) if full else (2,)):
+                        for e in ((2, 4) if full else (3,)):
+                            sched = [0] * 5 + [1] * 2 + [0] * cc + [1] * d + [0] * e + [5] * 22 + [0, 1, 5] * 30
+                            cases.append({'dist': False, 'n': 1, 'budget': 90, 'progs': [[('S', 0), ('G',), ('U',)], rd, pb], 'sched': sched[:102]})
+    else:
+        for n in ((1, 2, 4) if full else (2,)):
+            for h in ([('L',), ('U',)], [('X', 1), ('U',)]):
+                for rd in ([('Y', n - 1, 1), ('V', n - 1)], [('S', n - 1), ('V', n - 1)]):
+                    for pb in ([('X', 1), ('U',)], [('Y', 0, 1), ('V', 0)]):
+                        for a in ((n + 1, 2 * n + 1, 2 * n + 2) if full else (n + 1, 2 * n + 2)):
+                            for cc in ((1, 2, n + 1, n + 2) if full else (2, n + 2)):
+                                b = BUDGET[n]
+                                sched = [0] * a + [1] * 2 + [0] * cc + [1] * 2 + [5] * (3 * n + 6) + [0, 1, 5] * 60
+                                cases.append({'dist': True, 'n': n, 'budget': b, 'progs': [h, rd, pb], 'sched': sched[:b + 12]})
+    return cases
+
+
+def block_sched(r, nt, n):
+    """decision list made of short blocks 'run thread t for k steps' (value = t modulo the number of threads)"""
+    out = []
+    while len(out) < n:
+        t = r.randrange(nt)
+        k = r.choice([1, 1, 2, 2, 3, 4, 5, 6, 8, 12, 20])
+        out += [t + nt * r.randrange(0, 3)] * k
+    return out[:n]
+
+
+def gen_handover_case(r):
+    """generator weight: upgrade / downgrade with a concurrently backing-out reader and a third thread probing afterwards"""
+    holder = r.choice([[('L',), ('D',), ('V', 0)], [('T', 2), ('D',), ('V', 0)], [('L',), ('D',), ('G',), ('U',)],
+                       [('S', 0), ('G',), ('U',)], [('S', 0), ('G',), ('D',), ('V', 0)], [('Y', 0, 2), ('G',), ('U',)]])
+    reader = r.choice([[('Y', 0, 1), ('V', 0)], [('S', 0), ('V', 0)], [('Y', 0, 1), ('V', 0), ('Y', 0, 1), ('V', 0)]])
+    probe = r.choice([[('T', 1), ('U',)], [('L',), ('U',)], [('Y', 0, 1), ('V', 0)], [('T', 1), ('U',), ('T', 1), ('U',)]])
+    a, cc, d = r.randint(3, 6), r.randint(1, 5), r.randint(1, 3)
+    sched = [0] * a + [1] * 2 + [0] * cc + [1] * d + [5] * r.randint(2, 22)
+    sched += block_sched(r, 3, 102)
+    return {'dist': False, 'n': 1, 'budget': 90, 'progs': [holder, reader, probe], 'sched': sched[:102]}
+
+
+# ---- search ladder on disagreement -----------------------------------------------------------------------------------
+def sections_of(p, n):
+    """cut a well-formed script into its critical sections (idle to idle)"""
+    out, cur, depth_mode = [], [], 'I'
+    for o in p:
+        cur.append(o)
+        k = o[0]
+        if k in 'LTXSY': depth_mode = 'H'
+        elif k in 'UV': depth_mode = 'I'
+        if depth_mode == 'I':
+            out.append(cur); cur = []
+    if cur:
+        out.append(cur)
+    return [x for x in out if wf_py(x, n)]
+
+
+def neighbours(r, c, limit=40):
+    """program variants of a disagreeing case: its well-formed threads, their single critical sections, permuted and extended
+    with try_lock / try_lock_shared / lock_shared / lock probes by a further thread"""
+    n, dist = c['n'], c['dist']
+    keep = [list(p) for p in c['progs'] if p and wf_py(p, n)]
+    secs = []
+    for p in keep:
+        for x in sections_of(p, n):
+            if x not in secs:
+                secs.append(x)
+    # sections with hand-overs / try operations first
+    secs.sort(key=lambda x: -sum(3 if o[0] in 'DG' else 1 if o[0] in 'TXY' else 0 for o in x))
+    idxs = sorted({o[1] for p in keep for o in p if o[0] in 'SYV'} | {0})
+    tr = 'X' if dist else 'T'
+    probes = [[(tr, 1), ('U',)], [('L',), ('U',)]]
+    for i in idxs[:2]:
+        probes += [[('Y', i, 1), ('V', i)], [('S', i), ('V', i)]]
+    out = []
+
+    def add(v):
+        v = [list(p) for p in v if p][:4]
+        if len(v) >= 2 and v not in out:
+            out.append(v)
+    add(keep)
+    add(list(reversed(keep)))
+    for pb in probes:
+        add(keep[:3] + [pb])
+    for sa in secs[:6]:
+        for rd in probes[2:] or probes:
+            for pb in probes:
+                add([sa, rd, pb])
+    for i, sa in enumerate(secs[:5]):
+        for sb in secs[:5]:
+            if sa is not sb:
+                for pb in probes[:3]:
+                    add([sa, sb, pb])
+    tail = out[8:]
+    r.shuffle(tail)
+    return (out[:8] + tail)[:limit]
+
+
+def ladder(ctx, exe, diffs, judge, imports, label):
+    """the lockstep trace differs from the model: search for a concrete failing input of the PROPERTY on the implementation
+    alone (more programs around the disagreeing ones x many more decision lists), confirm hits with the Coq judge"""
+    r = ctx.rng
+    total = 3000 if ctx.quick else 12000
+    dist = diffs[0][0]['dist']
+    variants, seen = [], set()
+    for c, p, o in diffs[:10]:
+        for v in neighbours(r, c):
+            k = (c['n'], repr(v))
+            if k not in seen:
+                seen.add(k); variants.append((c['n'], v))
+    variants = variants[:60]
+    cases = probe_family(dist, True)
+    per = max(8, total // max(1, len(variants)))
+    for n, v in variants:
+        b = BUDGET[n]
+        for _ in range(per):
+            sched = block_sched(r, len(v), b + 12) if r.random() < 0.7 else gen_sched(r, b + 12)
+            cases.append({'dist': dist, 'n': n, 'budget': b, 'progs': v, 'sched': sched})
+    outs = ls_common.run_cases(exe, [line_of(c) for c in cases], jobs=12)
+    hits, kinds = [], {}
+    for c, o in zip(cases, outs):
+        p = parse_out(o)
+        if p is None:
+            continue
+        why = impl_fails(c, p)
+        if why:
+            kinds[why.split(' (')[0][:40]] = kinds.get(why.split(' (')[0][:40], 0) + 1
+            hits.append((len(p['steps']) + 10 * sum(len(x) for x in c['progs']), why, c, p, o))
+    ctx.cov['evaluations'] += len(cases)
+    ctx.cov['search_ladder'] = {'disagreeing_cases': len(diffs), 'program_variants': len(variants), 'runs': len(cases), 'hits': len(hits), 'hit_kinds': kinds}
+    ctx.phase('ladder_run')
+    if not hits:
+        return
+    hits.sort(key=lambda h: h[0])
+    best, got = [], set()
+    for h in hits:                      # the smallest witness of every kind
+        if h[1] not in got or len(best) < 3:
+            got.add(h[1]); best.append(h)
+        if len(best) >= 5:
+            break
+    verdicts = ls_common.judge_parallel(ctx, imports, judge, [term_of(h[2], h[3]) for h in best], shard_size=100)
+    for i, (_, why, c, p, o) in enumerate(best):
+        if verdicts is None or verdicts[i] == 2:
+            ctx.violation('%s [found by the search ladder after a model/implementation disagreement]: %s -> %s' % (why, line_of(c)[:260], o[-300:]),
+                          {'case': line_of(c), 'output': o, 'why': why, 'coq_judge_verdict': None if verdicts is None else verdicts[i],
+                           'cmd': 'echo "<case>" | build/harness/h_rwlock-*   (VERIF_REPO honoured by dv.build_harness)'})
+    ctx.phase('ladder_judge')
+
+
 def correspond(ctx, cases, judge, imports, label):
     """run the cases on the real code, judge them in Coq, file verdicts.  Returns (kept, verdicts)"""
     exe = dv.build_harness('h_rwlock', ['h_rwlock.cpp'], need_lib=False)
@@ -163,8 +387,8 @@ def correspond(ctx, cases, judge, imports, label):
     outs = ls_common.run_cases(exe, [line_of(c) for c in cases])
     terms, kept, distinct = [], [], set()
     for c, o in zip(cases, outs):
-        p = ls_common.parse_vsched(o, SITES, TAGS)
-        if p is None or 'error' in p or parse_extra(p['extra']) is None:
+        p = parse_out(o)
+        if p is None:
             ctx.broken.append('lockstep harness output unreadable for %s: %s' % (line_of(c)[:200], (o or '')[:200]))
             continue
         terms.append(term_of(c, p))
@@ -173,27 +397,29 @@ def correspond(ctx, cases, judge, imports, label):
             distinct.add(o.split('| status')[0])
     ctx.cov['evaluations'] += len(cases)
     ctx.cov['distinct_nontrivial'] += len(distinct)
+    ctx.cov['quiescent_word_checks'] = sum(1 for c, p, _ in kept if p['status'] == 0 and all(wf_py(pr, c['n']) for pr in c['progs']))
     ctx.phase('run')
     verdicts = ls_common.judge_parallel(ctx, imports, judge, terms, shard_size=100)
     if verdicts is None:
         ctx.broken.append('correspondence L(%s): the model no longer evaluates' % label)
         return kept, None
-    hist = {}
+    hist, diffs = {}, []
     for v, (c, p, o) in zip(verdicts, kept):
         hist[v] = hist.get(v, 0) + 1
         if v == 2:
-            words, conflicts, _ = parse_extra(p['extra'])
-            what = ('conflicting occupancy observed inside a critical section' if conflicts else
-                    'deadlock of a balanced script (lost wake-up)' if p['status'] == 1 else
-                    'lock word not restored after a balanced script' if p['status'] == 0 else 'property fails')
+            what = impl_fails(c, p) or 'property fails'
             ctx.violation('%s: %s -> %s' % (what, line_of(c)[:220], o[-260:]),
                           {'case': line_of(c), 'output': o, 'cmd': 'echo "<case>" | build/harness/h_rwlock-*'})
         elif v == 1:
-            ctx.broken.append('correspondence L(%s): real trace differs from the model on %s -> %s' % (label, line_of(c)[:200], o[:300]))
+            diffs.append((c, p, o))
+            if len(diffs) <= 6:
+                ctx.broken.append('correspondence L(%s): real trace differs from the model on %s -> %s' % (label, line_of(c)[:200], o[:300]))
         elif v == 3:
             ctx.broken.append('generator produced a non-distributed script: ' + line_of(c)[:120])
     ctx.cov['verdict_histogram'] = {'agree': hist.get(0, 0), 'differ_property_holds': hist.get(1, 0), 'property_fails': hist.get(2, 0)}
     ctx.cov['traces_validated_against_impl'] += hist.get(0, 0)
     ctx.cov['status_histogram'] = {k: sum(1 for _, p, _ in kept if p['status'] == v) for k, v in (('done', 0), ('deadlock', 1), ('budget', 2))}
     ctx.phase('correspond')
+    if diffs and not any(True for _ in ctx.violations):
+        ladder(ctx, exe, diffs, judge, imports, label)
     return kept, verdicts
